@@ -137,9 +137,9 @@ def run(ctx: Ctx) -> int:
         c = json.load(open(ctx.replay))["case"]
         decide(ctx, [{"w": c["w"], "net": c["net"], "variants": c["variants"], "events": [{"cfg": c["cfg"]}]}], "replay")
         return ctx.finish("model_checking", "replay of one recorded configuration")
-    tlc.model_check(ctx, SPEC, f"{SPEC}_mc_{tier}", vacuity_ignore=("PEmit", "Move", "PerturbAny", "Wild", "EmitNet"))
+    tlc.model_check(ctx, SPEC, f"{SPEC}_mc_{tier}", vacuity_ignore=("PEmit", "PerturbAny", "Wild", "EmitNet"))
     # what the loops do NOT guarantee, and what the code does to hard modules today: TLC must exhibit both
-    for cfg, inv in ((f"{SPEC}_mc_fails", "InvNoOverlap"), (f"{SPEC}_mc_coded", "InvHardKept")):
+    for cfg, inv in ((f"{SPEC}_mc_fails", "InvNoOverlap"), (f"{SPEC}_mc_fails2", "InvStillAttached"), (f"{SPEC}_mc_coded", "InvHardKept")):
         res = tlc.run_tlc(ctx, SPEC, cfg, expect_ok=False, tag="mc-must-fail")
         if res["ok"] or f"{inv} is violated" not in res["stdout"]:
             raise MachineryError(f"{cfg}: expected a counterexample to {inv}")
